@@ -46,6 +46,10 @@ def run_single(prop, tier, seed, shard, nshards, out=None, replay_case=None):
     install(hub)
     secs = mod.BUDGET[tier]
     budget = Budget(secs)
+    from .trace import Reach, reach_report
+
+    reach = Reach()
+    reach.start()
     try:
         if replay_case is not None and str(replay_case.get("driver", "")).startswith("piggy."):
             # a violation seen while the repository's tests / howtos / examples ran under the monitors:
@@ -72,6 +76,11 @@ def run_single(prop, tier, seed, shard, nshards, out=None, replay_case=None):
         import traceback
 
         rec.inconclusive(f"check crashed: {traceback.format_exc()[-1500:]}")
+    reach.stop()
+    try:
+        rec.info("flodym_functions_reached", reach_report(reach, prop))
+    except Exception:
+        pass
     if budget.exhausted:
         rec.notes.append(f"shard {shard}: time budget of {secs}s reached, remaining cases skipped")
     if out:
